@@ -301,7 +301,7 @@ class extract_visitor(NodeVisitor):
 
         cur = self.flow
         scope = FuncScope(cur.scope, node, self.top)
-        if cur.hint in ('comp', 'walrus'):
+        if cur.hint in ('comp', 'walrus', 'comp-join'):
             scope.comp_flow = cur  # type: ignore[attr-defined]
         self.visit_in_flow(node.body, scope.flow)
 
